@@ -715,6 +715,31 @@ r3:
 			}
 		}
 		r.Check(okM, "C18.R5", fname(a.recv)+":getMembers", "getMembers is answered with members.Slice()", w.fnPos(a.recv), "Members() is not answered from the member set")
+		if fill {
+			// each kind in its own slot
+			var idx ssa.Value
+			for _, in := range g.ins {
+				if st, ok := in.(*ssa.Store); ok && w.pathOf(st.Val) == "next(range(P0.kinds))#1" {
+					if ia, isIA := st.Addr.(*ssa.IndexAddr); isIA {
+						idx = ia.Index
+					}
+				}
+			}
+			ph, isPhi := idx.(*ssa.Phi)
+			fill = false
+			if isPhi {
+				z, inc := false, false
+				for _, e := range ph.Edges {
+					if constStr(e) == "0" {
+						z = true
+					}
+					if b, isB := e.(*ssa.BinOp); isB && b.Op == token.ADD && b.X == ssa.Value(ph) && constStr(b.Y) == "1" {
+						inc = true
+					}
+				}
+				fill = z && inc
+			}
+		}
 		r.Check(okK && fill, "C18.R5", fname(a.recv)+":getKinds", "getKinds is answered with the keys of kinds", w.fnPos(a.recv), "HasKind is not answered from the kinds map")
 		cm := w.Method("cluster", "Cluster", "Members")
 		hk := w.Method("cluster", "Cluster", "HasKind")
@@ -876,6 +901,42 @@ func checkC19(w *World, r *Report) {
 				if rq, _, lit := w.structLit(ci.Common().Args[2]); lit && rq != nil && rq.Obj().Name() == "ActivationRequest" && w.pathOf(ci.Common().Args[2]) == "&lit:ActivationRequest{ID=P2.id,Kind=P1}" {
 					okP = true
 				}
+			}
+		}
+		{
+			// the caller's select function is replaced by the default only when it is nil
+			okDef := true
+			isNil, _ := g.CondEdges(func(v ssa.Value) (bool, bool) {
+				b, isB := v.(*ssa.BinOp)
+				if !isB || (b.Op != token.EQL && b.Op != token.NEQ) {
+					return false, false
+				}
+				if k, isK := b.Y.(*ssa.Const); isK && k.IsNil() {
+					if u, isU := b.X.(*ssa.UnOp); isU {
+						if fa, isFA := u.X.(*ssa.FieldAddr); isFA {
+							if name, _ := fieldName(fa); name == "selectMember" {
+								return b.Op == token.EQL, true
+							}
+						}
+					}
+				}
+				return false, false
+			})
+			for i, in := range g.ins {
+				if st, isSt := in.(*ssa.Store); isSt {
+					if fa, isFA := st.Addr.(*ssa.FieldAddr); isFA {
+						if name, _ := fieldName(fa); name == "selectMember" && (len(isNil) == 0 || !g.OnlyVia(isNil, i)) {
+							okDef = false
+						}
+					}
+				}
+			}
+			r.Check(okDef, "C19.R1", fname(a.activate)+":select-default-only-if-nil", "the caller's select function is replaced by the default only when none was given", site,
+				"the configured select function is overwritten: the actor is placed on a member the caller did not choose")
+			for _, c := range []struct{ m, f string }{{"WithSelectMemberFunc", "selectMember"}, {"WithID", "id"}, {"WithRegion", "region"}} {
+				fn := w.Method("cluster", "ActivationConfig", c.m)
+				r.Check(valueSetter(w, fn, c.f), "C19.R1", "ActivationConfig."+c.m, c.m+" returns a copy of the config with "+c.f+" set to its argument", w.fnPos(fn),
+					"the activation ignores the caller's "+c.f)
 			}
 		}
 		okLoc := false
